@@ -72,6 +72,7 @@ class SimRaw(io.RawIOBase):
         self.hid = hid
         self.actor = actor
         self.pos = 0
+        self.data = None  # the inode (bytearray) this handle is bound to, set by SimDisk.open
         self.dead = False  # process "killed": nothing reaches the disk any more
         self._r = "r" in mode or "+" in mode
         self._w = "w" in mode or "+" in mode or "a" in mode or "x" in mode
@@ -88,18 +89,17 @@ class SimRaw(io.RawIOBase):
         return True
 
     def fileno(self):
-        raise io.UnsupportedOperation("fileno")
+        if not self.disk.filenos:
+            raise io.UnsupportedOperation("fileno")  # makes shutil fall back to plain read/write
+        return FD_BASE + self.hid
 
     def isatty(self):
         return False
 
     # -- data
     def _buf(self):
-        b = self.disk.files.get(self.path)
-        if b is None:
-            # file unlinked while open: keep a private buffer (POSIX semantics)
-            b = self.disk.orphans.setdefault(self.hid, bytearray())
-        return b
+        # a handle stays bound to the inode it was opened on (rename/unlink under it do not matter)
+        return self.data
 
     def readinto(self, b):
         if self.closed:
@@ -127,6 +127,9 @@ class SimRaw(io.RawIOBase):
             self.disk.log_event("discard", self, self.pos, n)
             self.pos += n
             return n
+        if self.disk.full and n:
+            self.disk.counts["enospc"] = self.disk.counts.get("enospc", 0) + 1
+            raise OSError(errno.ENOSPC, "No space left on device")
         if n > 1 and self.disk.short_write:
             n = self.disk.short(n)
         data = self._buf()
@@ -135,6 +138,7 @@ class SimRaw(io.RawIOBase):
         if self.pos > len(data):
             data.extend(b"\x00" * (self.pos - len(data)))
         data[self.pos : self.pos + n] = mv[:n]
+        self.disk.touch(data)
         self.disk.log_event("write", self, self.pos, n)
         self.pos += n
         return n
@@ -176,6 +180,7 @@ class SimRaw(io.RawIOBase):
             del data[size:]
         elif size > old:
             data.extend(b"\x00" * (size - old))
+        self.disk.touch(data)
         self.disk.log_event("trunc", self, size, old)
         return size
 
@@ -200,6 +205,11 @@ class SimDisk:
         self.short_write = short_write
         self._lcg = (io_seed * 2862933555777941757 + 3037000493) & (2**64 - 1)
         self.actor = "harness"
+        self.filenos = False  # hand out fake file descriptors (os.fstat works on them)
+        self.full = False  # every raw write fails with ENOSPC while set
+        self.now = lambda: 0.0  # simulated clock, for modification times
+        self.mtime_gran = 1e-9  # timestamp granularity of the simulated volume (1 ns, 1 s, 2 s)
+        self.mtimes = {}  # id(inode) -> mtime in ns
         self.relative = False  # map relative paths to /simfs/cwd while library code runs
         self.dirs = {os.path.normpath(ROOT), os.path.normpath(ROOT + "cwd"), os.path.normpath(ROOT + "cwd/~"),
                      os.path.normpath(ROOT + "home")}
@@ -215,6 +225,11 @@ class SimDisk:
         if r % 3 == 0:
             return n
         return 1 + (r % n)
+
+    def touch(self, data):
+        g = self.mtime_gran
+        t = self.now()
+        self.mtimes[id(data)] = int((t // g) * g * 1e9) if g > 1e-9 else int(t * 1e9)
 
     def log_event(self, kind, raw, a, b):
         self.seq += 1
@@ -247,12 +262,18 @@ class SimDisk:
         raw = SimRaw(self, path, norm, hid, self.actor)
         if norm[0] in "wx":
             old = len(self.files[path]) if exists else -1
-            self.files[path] = bytearray()
+            if exists:
+                del self.files[path][:]  # O_TRUNC keeps the inode
+            else:
+                self.files[path] = bytearray()
+            raw.data = self.files[path]
+            self.touch(raw.data)
             self.open_handles[hid] = raw
             self.log_event("open", raw, old, 1)  # b=1: created/truncated
         else:
             if not exists:
                 self.files[path] = bytearray()
+            raw.data = self.files[path]
             self.open_handles[hid] = raw
             self.log_event("open", raw, len(self.files[path]), 0)
         if buffering == 0:
@@ -271,8 +292,14 @@ class SimDisk:
             if path in self.dirs:
                 return os.stat_result((_stat.S_IFDIR | 0o755, 1, 1, 2, 0, 0, 0, 0, 0, 0))
             raise FileNotFoundError(errno.ENOENT, "No such file or directory", path)
-        ino = 1000 + sorted(self.files).index(path)
-        return os.stat_result((_stat.S_IFREG | 0o644, ino, 1, 1, 0, 0, len(data), 0, 0, 0))
+        return self.stat_data(data)
+
+    def stat_data(self, data):
+        ino = 1000 + (id(data) // 16) % 1000003
+        ns = self.mtimes.get(id(data), 0)
+        sec = ns // 10**9
+        return os.stat_result((_stat.S_IFREG | 0o644, ino, 1, 1, 0, 0, len(data), sec, sec, sec,
+                               ns / 1e9, ns / 1e9, ns / 1e9, ns, ns, ns))
 
     def kill(self, path=None):
         """Process kill: every open handle (on path, or all) stops reaching the disk."""
@@ -300,10 +327,57 @@ def _sim_open(file, mode="r", buffering=-1, encoding=None, errors=None, newline=
 
 
 def _sim_stat(path, *a, **kw):
+    if isinstance(path, int) and path >= FD_BASE and _DISK is not None:
+        return _sim_fstat(path)
     k = _key(path) if _DISK is not None and not isinstance(path, int) else None
     if k is None:
         return _real_stat(path, *a, **kw)
     return _DISK.stat(k)
+
+
+FD_BASE = 1 << 24
+_real_fstat = os.fstat
+
+
+def _sim_fstat(fd):
+    if _DISK is not None and isinstance(fd, int) and fd >= FD_BASE:
+        raw = _DISK.open_handles.get(fd - FD_BASE)
+        if raw is None:
+            raise OSError(errno.EBADF, "Bad file descriptor")
+        return _DISK.stat_data(raw.data)
+    return _real_fstat(fd)
+
+
+_real_sendfile = getattr(os, "sendfile", None)
+_real_lseek = os.lseek
+
+
+def _sim_sendfile(out_fd, in_fd, offset, count, *a, **kw):
+    """shutil.copyfile's fast path, emulated between two simulated descriptors."""
+    if _DISK is not None and out_fd >= FD_BASE and in_fd >= FD_BASE:
+        src = _DISK.open_handles.get(in_fd - FD_BASE)
+        dst = _DISK.open_handles.get(out_fd - FD_BASE)
+        if src is None or dst is None:
+            raise OSError(errno.EBADF, "Bad file descriptor")
+        chunk = bytes(src.data[offset : offset + min(count, 1 << 20)])
+        if not chunk:
+            return 0
+        n = 0
+        while n < len(chunk):
+            n += dst.write(chunk[n:])
+        return n
+    if _DISK is not None and (out_fd >= FD_BASE or in_fd >= FD_BASE):
+        raise OSError(errno.EINVAL, "Invalid argument")
+    return _real_sendfile(out_fd, in_fd, offset, count, *a, **kw)
+
+
+def _sim_lseek(fd, pos, how):
+    if _DISK is not None and isinstance(fd, int) and fd >= FD_BASE:
+        raw = _DISK.open_handles.get(fd - FD_BASE)
+        if raw is None:
+            raise OSError(errno.EBADF, "Bad file descriptor")
+        return raw.seek(pos, how)
+    return _real_lseek(fd, pos, how)
 
 
 def _sim_lstat(path, *a, **kw):
@@ -319,10 +393,7 @@ def _sim_remove(path, *a, **kw):
         return _real_remove(path, *a, **kw)
     if k not in _DISK.files:
         raise FileNotFoundError(errno.ENOENT, "No such file or directory", k)
-    data = _DISK.files.pop(k)
-    for raw in _DISK.open_handles.values():
-        if raw.path == k:
-            _DISK.orphans[raw.hid] = data
+    _DISK.files.pop(k)
     _DISK.seq += 1
     _DISK.events.append((_DISK.seq, "unlink", k, 0, "", _DISK.actor, 0, 0))
 
@@ -423,6 +494,10 @@ def install(disk):
         os.chmod = _noop_for_sim(_real_chmod)
         os.utime = _noop_for_sim(_real_utime)
         os.mkdir = _sim_mkdir
+        os.fstat = _sim_fstat
+        os.lseek = _sim_lseek
+        if _real_sendfile is not None:
+            os.sendfile = _sim_sendfile
 
 
 def uninstall():
@@ -443,3 +518,7 @@ def uninstall():
     os.chmod = _real_chmod
     os.utime = _real_utime
     os.mkdir = _real_mkdir
+    os.fstat = _real_fstat
+    os.lseek = _real_lseek
+    if _real_sendfile is not None:
+        os.sendfile = _real_sendfile
